@@ -19,3 +19,5 @@ MUTANTS.append(dict(name="union-member-order-memoised-per-type", file="core/catt
     old='def _structure_union(data: Any, union_type: type) -> Any:\n', new='from functools import lru_cache as _lru\n\n\n@_lru(maxsize=None)\ndef _ordered_members(union_type: Any) -> tuple:\n    return tuple(a for a in get_args(union_type) if a is not type(None))\n\n\ndef _structure_union(data: Any, union_type: type) -> Any:\n'))
 MUTANTS.append(dict(name="array-items-expanded-unless-object", file='types/resolvers/schema_resolver.py', expect="R14.7", old='            and getattr(items_schema, "type", None) in ("string", "integer", "number", "boolean")\n', new='            and getattr(items_schema, "type", None) != "object"\n'))
 MUTANTS.append(dict(name="mapping-fallback-folded-into-elif-chain", file='core/parsing/transformers/discriminator_enum_collector.py', expect="R14.8", old='            if not resolved_enum_values and variant_schema.name in discriminator_value_by_variant:\n', new='            elif variant_schema.name in discriminator_value_by_variant:\n'))
+MUTANTS.append(dict(name='union-variants-tried-in-reverse', file='core/cattrs_converter.py', expect='R14.9', old='        for variant in dataclass_variants:\n', new='        for variant in reversed(dataclass_variants):\n'))
+MUTANTS.append(dict(name='mapping-keeps-ref-values-only', file='core/parsing/schema_parser.py', expect='R14.10', old='                mapping = dict(disc_node["mapping"])\n', new='                mapping = {k: v for k, v in disc_node["mapping"].items() if v.startswith("#/")}\n'))
